@@ -37,7 +37,13 @@ def subpixel_pcc(
     product = f0 * f1.conj()
     power = _abs2(backend.ifftn(product))
     _max_shifts = np.asarray(max_shifts, dtype=np.float32)
-    _int_shifts = _max_shifts.astype(np.int32)
+    # NOTE: the integer estimate is searched in +-ceil(max_shifts). The peak of a
+    # fractional range may be closer to the integer position just outside the range;
+    # the refined shift is restricted to the range below.
+    if upsample_factor > 1:
+        _int_shifts = np.ceil(_max_shifts).astype(np.int32)
+    else:
+        _int_shifts = _max_shifts.astype(np.int32)
     power = crop_by_max_shifts(power, _int_shifts, _int_shifts, backend)
 
     maxima = backend.unravel_index(backend.argmax(power), power.shape)
@@ -51,8 +57,8 @@ def subpixel_pcc(
     # Initial shift estimate in upsampled grid
     shifts = np.fix(shifts * upsample_factor) / upsample_factor
     if upsample_factor > 1:
-        # The integer estimate is restricted to +-int(max_shifts), so the true peak
-        # can be up to 1 pixel away from it. The upsampled region must cover +-1 pixel.
+        # The true peak can be up to 1 pixel away from the integer estimate. The
+        # upsampled region must cover +-1 pixel.
         upsampled_region_size = 2 * upsample_factor + 1
         # Center of output array at dftshift + 1
         dftshift = float(np.fix(upsampled_region_size / 2.0))
@@ -71,8 +77,9 @@ def subpixel_pcc(
 
         # The upsampled window is centered at ``dftshift`` (not in the FFT order), so
         # it must be cropped directly around the center.
-        _lshift = ((shifts + _max_shifts) * upsample_factor).astype(np.int32)
-        _rshift = ((_max_shifts - shifts) * upsample_factor).astype(np.int32)
+        # (negative if the integer estimate is outside the range)
+        _lshift = np.floor((shifts + _max_shifts) * upsample_factor + 1e-4)
+        _rshift = np.floor((_max_shifts - shifts) * upsample_factor + 1e-4)
         _center = int(dftshift)
         _starts = [max(_center - int(l), 0) for l in _lshift]
         _stops = [
